@@ -22,7 +22,7 @@ Key(r, h, c, rt, v) ==
   <<r,
     [x \in 1..MaxCell(h) |-> IF x \in DOMAIN h THEN h[x] ELSE 99],
     [t \in Tables |-> [i \in 1..MaxId |-> IF i \in DOMAIN c[t] THEN <<c[t][i].top, c[t][i].cell>> ELSE <<>>]],
-    [k \in 1..Len(rt) |-> <<rt[k].t, rt[k].id, rt[k].top, rt[k].cell>>],
+    [k \in 1..Len(rt) |-> <<rt[k].t, rt[k].id, rt[k].top, rt[k].cell, rt[k].alias>>],
     v>>
 Emit(name, args) ==
   PrintT(ToJson([from  |-> Key(rows, heap, cache, rets, ver),
@@ -35,6 +35,7 @@ Emit(name, args) ==
 GenNext == \/ \E t \in Tables : Add(t) /\ Emit("add", <<t>>)
            \/ \E t \in Tables, i \in 1..MaxId, f \in Fields : Update(t, i, f) /\ Emit("update", <<t, i, f>>)
            \/ \E t \in Tables, i \in 1..MaxId : Get(t, i) /\ Emit("get", <<t, i>>)
+           \/ \E t \in Tables : GetAll(t) /\ Emit("getall", <<t>>)
            \/ \E k \in 1..MaxRets : MutTop(k) /\ Emit("mut_top", <<k>>)
            \/ \E k \in 1..MaxRets : MutNested(k) /\ Emit("mut_nested", <<k>>)
 
@@ -44,13 +45,15 @@ InitF == Init /\ focus \in Tables
 AddF       == Add(focus) /\ UNCHANGED focus
 UpdateF    == (\E i \in 1..MaxId, f \in Fields : Update(focus, i, f)) /\ UNCHANGED focus
 GetF       == (\E i \in 1..MaxId : Get(focus, i)) /\ UNCHANGED focus
+GetAllF    == GetAll(focus) /\ UNCHANGED focus
 MutTopF    == (\E k \in 1..MaxRets : MutTop(k)) /\ UNCHANGED focus
 MutNestedF == (\E k \in 1..MaxRets : MutNested(k)) /\ UNCHANGED focus
-NextF == AddF \/ UpdateF \/ GetF \/ MutTopF \/ MutNestedF
+NextF == AddF \/ UpdateF \/ GetF \/ GetAllF \/ MutTopF \/ MutNestedF
 GenNextF == /\ UNCHANGED focus
             /\ \/ Add(focus) /\ Emit("add", <<focus>>)
                \/ \E i \in 1..MaxId, f \in Fields : Update(focus, i, f) /\ Emit("update", <<focus, i, f>>)
                \/ \E i \in 1..MaxId : Get(focus, i) /\ Emit("get", <<focus, i>>)
+               \/ GetAll(focus) /\ Emit("getall", <<focus>>)
                \/ \E k \in 1..MaxRets : MutTop(k) /\ Emit("mut_top", <<k>>)
                \/ \E k \in 1..MaxRets : MutNested(k) /\ Emit("mut_nested", <<k>>)
 ViewF    == <<rows, heap, cache, rets, ver, depth, focus, obs>>   \* exhaustive runs: obs stays visible, GetReturnsDbRow reads it
